@@ -44,9 +44,10 @@ fn consumer_switch_await(buf: &mut Option<TempFileBuffer<Dest>>, step: u8, at: u
 // @kind core
 // @timeout 1500
 // @mem 24
+// @fs 16384
 // @flags c-ffi
 // @functions TempFileBuffer::{new, switch, await_real_file}, TempFileBufferWriter::{write (update), flush, drop}; instantiation R = Dest(NonZeroU32)
-// @bounds producer: 2 writes of 1..=2 symbolic bytes each, then drop; consumer: switch at a symbolic position p in {before write 1, between the writes, after write 2, after the drop}, then await_real_file; in-memory staging
+// @bounds producer: 2 writes (1 byte, then 2 bytes; symbolic contents), then drop; consumer: switch at a symbolic position p in {before write 1, between the writes, after write 2, after the drop}, then await_real_file; in-memory staging
 // @stubs tempfile::tempfile -> Err (never called: in-memory staging); libc syscall (futex wake from Condvar::notify_one) -> returns 0 in the C model
 // @assumes call-level atomicity: every public call touches the shared state in one AtomicCell::swap or one mutex-protected section, so each concurrent execution is equivalent to an interleaving of whole calls (argued in DESIGN.md, not explored); blocking calls are scheduled only when enabled
 // @cut temp-file staging (quick tier); sub-call interleavings; the seqlock path of AtomicCell for handles larger than 8 bytes
@@ -58,8 +59,9 @@ fn c12_switch_any_point_inmemory() {
     let p: u8 = kani::any();
     kani::assume(p <= 3);
     let (b0, b1, b2, b3): (u8, u8, u8, u8) = (kani::any(), kani::any(), kani::any(), kani::any());
-    let (n1, n2): (usize, usize) = (kani::any(), kani::any());
-    kani::assume(n1 >= 1 && n1 <= 2 && n2 >= 1 && n2 <= 2);
+    // concrete sizes (1 and 2 bytes), symbolic contents: a symbolic write length turns every copy into a
+    // variable-length memcpy (measured: 5.5M symex steps, out of memory)
+    let (n1, n2): (usize, usize) = (1, 2);
     let (buf, mut writer): (TempFileBuffer<Dest>, TempFileBufferWriter<Dest>) = TempFileBuffer::new(true);
     let mut buf = Some(buf);
     let mut switched = false;
@@ -110,9 +112,10 @@ fn c12_switch_any_point_inmemory() {
 // @kind core
 // @timeout 1500
 // @mem 24
+// @fs 16384
 // @flags c-ffi
 // @functions TempFileBuffer::{new, len, expect_closed_write, is_real_file_ready}, TempFileBufferWriter::{write, drop}
-// @bounds producer: 0..=2 writes of 1..=2 symbolic bytes, then drop; consumer never switches: readiness polled at a symbolic point, then len, then expect_closed_write into a destination; in-memory staging
+// @bounds producer: 0..=2 writes (1 byte, then 2 bytes; symbolic contents), then drop; consumer never switches: readiness polled at a symbolic point, then len, then expect_closed_write into a destination; in-memory staging
 // @assumes as c12_switch_any_point_inmemory
 // @witness cover: zero writes; polled before the producer finished
 #[kani::proof]
@@ -124,8 +127,9 @@ fn c12_unswitched_len_and_copy() {
     let poll_at: u8 = kani::any();
     kani::assume(poll_at <= 2);
     let (b0, b1, b2, b3): (u8, u8, u8, u8) = (kani::any(), kani::any(), kani::any(), kani::any());
-    let (n1, n2): (usize, usize) = (kani::any(), kani::any());
-    kani::assume(n1 >= 1 && n1 <= 2 && n2 >= 1 && n2 <= 2);
+    // concrete sizes (1 and 2 bytes), symbolic contents: a symbolic write length turns every copy into a
+    // variable-length memcpy (measured: 5.5M symex steps, out of memory)
+    let (n1, n2): (usize, usize) = (1, 2);
     let (buf, mut writer): (TempFileBuffer<Dest>, TempFileBufferWriter<Dest>) = TempFileBuffer::new(true);
     let w1 = [b0, b1];
     let w2 = [b2, b3];
